@@ -127,15 +127,31 @@ theorem unrename {names : List String} (hnd : names.Nodup) (g : Option Nat → S
 
 /-! ### `intoModel` -/
 
-/-- what `intoModel` does to one constraint (the right-hand side of an assertion is not translated). -/
-def renameC (names : List String) (c : Constraint α) : Constraint α :=
-  { c with lhs := mapVars (rename names) c.lhs,
-           rhs := if c.isAssert then c.rhs else mapVars (rename names) c.rhs }
+/-- what `to_constraint` does to one constraint: an assertion is stored as `lhs = 1` (its builder-side comparison and
+right-hand side are ignored), a comparison has both sides renamed. -/
+def renameC [Arith α] (names : List String) (c : Constraint α) : Constraint α :=
+  if c.isAssert then
+    { name := c.name, lhs := mapVars (rename names) c.lhs, cmp := .eq, rhs := .num Arith.one, isAssert := true }
+  else
+    { name := c.name, lhs := mapVars (rename names) c.lhs, cmp := c.cmp, rhs := mapVars (rename names) c.rhs,
+      isAssert := false }
 
 def cInRange (names : List String) (c : Constraint α) : Bool :=
   inRange names c.lhs && (c.isAssert || inRange names c.rhs)
 
-theorem foldr_closed (names : List String)
+/-- CLOSED FORM of `to_constraint`. -/
+theorem toConstraint_closed [Arith α] (names : List String) (c : Constraint α) :
+    toConstraint names c = if cInRange names c = true then some (renameC names c) else none := by
+  simp only [toConstraint, toExp_closed, cInRange, inRange, renameC]
+  by_cases hl : (vars c.lhs).all (leafOk names) = true
+  · by_cases ha : c.isAssert = true
+    · simp [hl, ha]
+    · by_cases hr : (vars c.rhs).all (leafOk names) = true
+      · simp [hl, ha, hr]
+      · simp [hl, ha, hr]
+  · by_cases ha : c.isAssert = true <;> simp [hl, ha]
+
+theorem foldr_closed [Arith α] (names : List String)
     (f : Constraint α → Option (List (Constraint α)) → Option (List (Constraint α)))
     (hnone : ∀ c, f c none = none)
     (hsome : ∀ c rest, f c (some rest) =
@@ -183,14 +199,8 @@ theorem intoModel_closed (b : BModel α) :
     · simp [hcs, bInRange]
   · intro c; rfl
   · intro c rest
-    simp only [Option.bind_some, toExp_closed, cInRange, inRange, renameC]
-    by_cases hl : (vars c.lhs).all (leafOk (b.vars.map (·.1))) = true
-    · by_cases ha : c.isAssert = true
-      · simp [hl, ha]
-      · by_cases hr : (vars c.rhs).all (leafOk (b.vars.map (·.1))) = true
-        · simp [hl, ha, hr]
-        · simp [hl, ha, hr]
-    · simp [hl]
+    simp only [Option.bind_some, toConstraint_closed]
+    by_cases hc : cInRange (b.vars.map (·.1)) c = true <;> simp [hc]
 
 end
 end shape
